@@ -14,6 +14,17 @@ FAMILY = {"number": "FormatNums", "date": "FormatDateTime", "time": "FormatDateT
           "currency": "FormatCurrency", "plural": "Plurals"}
 
 
+DOCUMENTED_KEYS = {
+    "Plurals": {"plurals/cardinal@1", "plurals/ordinal@1"},
+    "FormatNums": {"decimal/symbols@1"},
+    "FormatList": {"list/and@1", "list/or@1", "list/unit@1"},
+    "FormatCurrency": {"currency/essentials@1"},
+    "FormatDateTime": {"datetime/gregory/datelengths@1", "datetime/gregory/datesymbols@1", "datetime/timelengths@1", "datetime/timesymbols@1",
+                       "datetime/week_data@1", "decimal/symbols@1", "plurals/ordinal@1", "calendar/japanese@1", "calendar/japanext@1",
+                       "datetime/buddhist/datelengths@1", "datetime/buddhist/datesymbols@1", "datetime/japanese/datelengths@1", "datetime/japanese/datesymbols@1"},
+}
+
+
 def mk_project(rng):
     locales = rng.sample(["en", "fr", "de", "ja"], rng.range(1, 3))
     default = locales[0]
@@ -95,6 +106,11 @@ def run(ctx):
         compare_model(ctx, "P/pipeline(C20)", p, po)
         if "parse_err" in r:
             ctx.count("rejected")
+            if "ok" in po["ci"]:
+                # the macro's loader accepts these translations (same parser, formatter features on): the build helper must too
+                report_violation(ctx, "icu:build-helper-rejects-valid-translations", {
+                    "case": project_text(p), "implementation": r["parse_err"], "plan": p.get("icu"),
+                    "expected_by_spec": "the data keys of the options these translations use", "harness": "build_h icu vs parser_h pipeline"})
             continue
         # expected options: from the placement plan when there is one, else from the parser's own final values
         exp = set()
@@ -120,6 +136,15 @@ def run(ctx):
         if "icu" in p and set(p["icu"]["expected"]) != exp:
             raise HarnessError("generator plan and parser output disagree on the options used: " + json.dumps(project_text(p))[:500])
         per = dict((n, set(ks)) for n, ks in r["per_option"])
+        # the data an option stands for must contain what ICU4X 1.5's constructors of that family are documented to load
+        # (`try_new_unstable` bounds of PluralRules / FixedDecimalFormatter / ListFormatter / CurrencyFormatter / DateTimeFormatter with
+        # AnyCalendar): an independent pin — the expectation below is otherwise read off the library's own `into_data_keys`
+        for oname, need in DOCUMENTED_KEYS.items():
+            if not need <= per.get(oname, set()):
+                report_violation(ctx, "icu:option-lacks-documented-keys", {
+                    "case": {"option": oname}, "missing": sorted(need - per.get(oname, set())), "implementation": sorted(per.get(oname, set())),
+                    "expected_by_spec": sorted(need), "why": "a provider generated from these keys cannot build the formatters of this family",
+                    "harness": "build_h icu (Options::into_data_keys)"})
         exp_keys = set()
         for o in exp:
             exp_keys |= per[o]
